@@ -457,7 +457,12 @@ def run(ctx):
                              "result": str(rec["result"])[:200]},
                      kind=f"{stream}:deltas{min(nd, 7)}:"
                           f"{'counted' if u['tg'] is None else 'explicit'}")
-            ok = v == "(true, true, true)"
+            # the recursive call must be given the target list (the model
+            # uses one target list for the whole recursion)
+            fwd = not rec["children"] or rec["children"][0]["tg"] is not None
+            ok = v == "(true, true, true)" and fwd
+            if not fwd:
+                v = f"{v}; recursive call without target_idx"
             ctx.obligation(f"pass model = implementation {label} pass {k}",
                            ok, f"{v} args={rec['expr'].args} tg={rec['tg']}")
             if not ok:
